@@ -574,6 +574,12 @@ def select__exists(self: XPathFunction, context: ta.ContextType = None) \
 def select__distinct_values(self: XPathFunction, context: ta.ContextType = None)\
         -> Iterator[AtomicType]:
 
+    def is_equal(value1: AtomicType, value2: AtomicType) -> bool:
+        try:
+            return bool(value1 == value2)
+        except (TypeError, ValueError):
+            return False  # values that cannot be compared are distinct
+
     def distinct_values(case_insensitive: bool = False) -> Iterator[AtomicType]:
         nan = False
         results: list[AtomicType] = []
@@ -591,7 +597,7 @@ def select__distinct_values(self: XPathFunction, context: ta.ContextType = None)
                     yield value
                     results.append(value)
 
-            elif value not in results:
+            elif not any(is_equal(value, x) for x in results):
                 yield value
                 results.append(value)
 
@@ -642,8 +648,11 @@ def select__index_of(self: XPathFunction, context: ta.ContextType = None) -> Ite
 
     with CollationManager(collation, self) as manager:
         for pos, result in enumerate(self[0].atomization(context), start=1):
-            if manager.eq(result, value):
-                yield pos
+            try:
+                if manager.eq(result, value):
+                    yield pos
+            except (TypeError, ValueError):
+                pass  # values that cannot be compared are not equal
 
 
 @method(function('remove', nargs=2, sequence_types=('item()*', 'xs:integer', 'item()*')))
